@@ -17,6 +17,10 @@ import common
 import fsops
 import genhist
 
+# TODO PENDING_FINDINGS: signatures of misbehaviours of the UNCHANGED library exposed by new coverage that are not yet
+# in known_findings.json; they are routed through report.known_match() and print as KNOWN-FINDING once registered.
+PENDING_FINDINGS = []
+
 _MT = re.compile(r"@(N|Si-?\d+)")
 _MTI = re.compile(r"\|(N|Si-?\d+)\)")
 
@@ -317,6 +321,14 @@ def replay(report, path):
     with open(path) as fh:
         d = json.load(fh)
     bc = B.BY_NAME.get(d.get("backend"), B.Mem)
+    if d.get("kind") == "spellings-disagree-on-one-object":
+        log = [(w, op_from_json(o)) for w, o in d["log"]]
+        q = d["query"]
+        log += [("w", (q[0], sx) + tuple(q[1:])) for sx in d["spellings"]]
+        outs = longlived_replay(bc, log)[-len(d["spellings"]):]
+        for sx, r in zip(d["spellings"], outs):
+            print("replay", bc.name, q[0], repr(sx), "->", r)
+        return 1 if len(set(outs)) > 1 else 0
     if d.get("history"):
         h = [op_from_json(o) for o in d["history"]]
         steps = run_histories(bc, [h])
@@ -1098,6 +1110,155 @@ def spellings(p, rnd, names):
     return sorted(out)
 
 
+def _run_last(bc, h, o):
+    """Replay history h on a fresh instance of the backend, then issue o; returns (outcome, storage after).
+    Read-only wrappers get their content through the wrapped filesystem (`inner`), the call goes through the wrapper."""
+    if not getattr(bc, "setup_via_inner", False):
+        last = run_histories(bc, [list(h) + [tuple(o)]])[-1]
+        return strip_times(sort_listing(last.outcome)), fsops.canon_tree(last.post)
+    b = bc()
+    try:
+        fs = b.make()
+        for x in h:
+            fsops.execute(b.inner, x)
+        out = fsops.execute(fs, tuple(o))
+        try:
+            post = fsops.canon_tree(b.snapshot())
+        except Exception as e:  # noqa
+            post = "SNAPFAIL:" + type(e).__name__
+    finally:
+        b.close()
+    return strip_times(sort_listing(out)), post
+
+
+# query calls issued on ONE long-lived object with every spelling (op kinds beyond fsops.OPC are local to C11)
+LONG_QUERIES = [("getinfo",), ("getinfo0",), ("listdir",), ("scandir",), ("scandir0",), ("filterdir",), ("walkall",),
+                ("exists",), ("isdir",), ("isfile",), ("isempty",), ("getsize",), ("gettype",), ("readbytes",),
+                ("openread", "rb")]
+
+
+def exec_q(fs, op):
+    """fsops.execute extended with read-only calls that take other code paths (no namespaces, filterdir, walk)."""
+    import signal
+    n = op[0]
+    if n in fsops.OPC:
+        return strip_times(sort_listing(fsops.execute(fs, op)))
+    old = signal.signal(signal.SIGALRM, fsops._alarm)
+    signal.alarm(5)
+    try:
+        try:
+            if n == "getinfo0":
+                i = fs.getinfo(op[1])
+                return "ok:(%s|%s)" % (common.r_str(i.name), common.r_bool(i.is_dir))
+            if n == "scandir0":
+                return "ok:[" + ";".join(sorted("(%s|%s)" % (common.r_str(i.name), common.r_bool(i.is_dir))
+                                                for i in fs.scandir(op[1]))) + "]"
+            if n == "filterdir":
+                return "ok:[" + ";".join(sorted("(%s|%s)" % (common.r_str(i.name), common.r_bool(i.is_dir))
+                                                for i in fs.filterdir(op[1]))) + "]"
+            if n == "walkall":
+                from fs.path import frombase, abspath, normpath
+                base = abspath(normpath(op[1]))
+                return "ok:[" + ";".join(sorted("(%s|%s)" % (common.r_str(frombase(base, q)), common.r_bool(i.is_dir))
+                                                for q, i in fs.walk.info(op[1]))) + "]"
+            raise ValueError(n)
+        except fsops.Timeout:
+            return "crash:NonTermination"
+        except Exception as e:  # noqa
+            return common.exc_name(e)
+    finally:
+        signal.alarm(0)
+        signal.signal(signal.SIGALRM, old)
+
+
+def longlived_backends(thorough):
+    base = [B.CachedDirMem, B.CachedDirOS, B.CachedDirSub, B.SubCachedDir, B.ReadOnlyMem, B.ReadOnlyCachedDir,
+            B.CachedDirReadOnly, B.ReadOnlyOS, B.Mem, B.Wrap, B.SubMem, B.OS, B.MountSub, B.MultiOne]
+    if thorough:
+        base += [B.SubOS, B.WrapOS, B.SubSub, B.Temp, B.ZipW, B.TarW]
+    return base
+
+
+def longlived_replay(bc, log):
+    """Re-execute a recorded call log ('w' = through the object under test, 'i' = through the wrapped filesystem)."""
+    b = bc()
+    try:
+        fs = b.make()
+        outs = []
+        for where, o in log:
+            outs.append(exec_q(fs if where == "w" else b.inner, tuple(o)))
+    finally:
+        b.close()
+    return outs
+
+
+def longlived_round(bc, rnd, thorough):
+    """One long-lived object: build a tree; then repeatedly (a) issue queries with SOME spellings, (b) change the
+    tree, (c) issue every query with ALL the spellings of each path, back to back in one state of the one object:
+    the answers for equivalent spellings must coincide (with each other - a caching wrapper may answer all of them
+    from its cache).  Returns (number of calls, number of groups, first disagreement or None)."""
+    b = bc()
+    calls = groups = 0
+    log = []
+    try:
+        fs = b.make()
+        via = "i" if getattr(b, "setup_via_inner", False) else "w"
+
+        def do(where, o):
+            log.append((where, o))
+            return exec_q(fs if where == "w" else b.inner, o)
+        g = genhist.Gen(rnd, spell=0.0, odd=0.1)
+        for _ in range(rnd.randint(3, 8)):
+            o = g.setup_op()
+            fsops.execute(g.shadow, o)
+            do(via, o)
+        for phase in range(4 if thorough else 3):
+            files, dirs = g.existing()
+            extra = [g.path("new"), g.path("noparent")] + ([g.path("belowfile")] if files else [])
+            extra = ["/" + x.lstrip("/") for x in extra]
+            keys = dirs + files
+            if not thorough and len(keys) > 5:
+                keys = ["/"] + rnd.sample(keys[1:], 4)
+            keys = keys + extra
+            det = ["zz"] + g.shadow.listdir("/")[:2]
+            sp = dict((p, spellings(p, rnd, det)) for p in keys)
+            grp = [(q, p) for q in LONG_QUERIES for p in keys]
+            primed = {}
+            for q, p in grp:        # (a) earlier calls with one or two of the spellings
+                if rnd.random() < 0.5:
+                    primed[(q, p)] = rnd.sample(sp[p], rnd.randint(1, 2))
+                    for sx in primed[(q, p)]:
+                        do("w", (q[0], sx) + q[1:])
+                        calls += 1
+            for _ in range(rnd.randint(1, 3)):      # (b) intervening changes
+                for _try in range(20):
+                    o = g.op()
+                    if o[0] not in QUERIES and ".." not in "".join(str(x) for x in o[1:3]):
+                        break
+                else:
+                    continue
+                fsops.execute(g.shadow, o)
+                # mostly through the object itself (write-through), sometimes behind its back
+                do(via if via == "i" or not hasattr(b, "inner") or rnd.random() < 0.8 else "i", o)
+            for q, p in grp:        # (c) all spellings, same state, same object
+                rest = [x for x in sp[p] if x not in primed.get((q, p), [])]
+                if not thorough and len(rest) > 5:
+                    rest = rest[:3] + rnd.sample(rest[3:], 2)
+                use = primed.get((q, p), []) + rest
+                rnd.shuffle(use)
+                before = len(log)
+                res = [(sx, do("w", (q[0], sx) + q[1:])) for sx in use]
+                calls += len(res)
+                groups += 1
+                for r in res[1:]:
+                    if r[1] != res[0][1]:
+                        return calls, groups, dict(backend=bc.name, log=log[:before], query=q, path=p,
+                                                   results=res, a=res[0], b=r)
+    finally:
+        b.close()
+    return calls, groups, None
+
+
 def run_c11(report):
     proof = common.preflight(report)
     thorough = report.tier == "thorough"
@@ -1107,7 +1268,8 @@ def run_c11(report):
     groups = 0
     bad = []
     nontrivial = set()
-    backs = [B.Mem, B.OS, B.SubMem, B.SubOS, B.Wrap, B.MountSub, B.MultiOne, B.MountDefault, B.ZipW]
+    backs = [B.Mem, B.OS, B.SubMem, B.SubOS, B.Wrap, B.MountSub, B.MultiOne, B.MountDefault, B.ZipW,
+             B.CachedDirMem, B.ReadOnlyMem, B.CachedDirOS, B.SubCachedDir, B.CachedDirReadOnly]
     for h in hs:
         # probe calls: every call kind with canonical path arguments drawn from the final state
         g = genhist.Gen(rnd, spell=0.0, odd=0.1)
@@ -1131,9 +1293,7 @@ def run_c11(report):
                     for s in sp:
                         o2 = list(o)
                         o2[pos] = s
-                        steps = run_histories(bc, [list(h) + [tuple(o2)]])
-                        last = steps[-1]
-                        results.append((s, strip_times(sort_listing(last.outcome)), fsops.canon_tree(last.post)))
+                        results.append((s,) + _run_last(bc, h, o2))
                         total += 1
                     groups += 1
                     base = results[0]
@@ -1149,8 +1309,14 @@ def run_c11(report):
                ("openwrite", "r+b", b"Z"), ("openread", "rb"), ("remove",), ("removedir",), ("removetree",),
                ("setinfo", 3), ("exists",), ("isdir",), ("isfile",), ("isempty",), ("getsize",), ("gettype",)]
     pairs = [("move", True, False), ("copy", True, False), ("movedir", True, False), ("copydir", True, False)]
-    sys_backs = backs if thorough else [B.Mem, B.OS, B.SubMem, B.SubOS, B.Wrap, B.MountSub]
-    for bc in sys_backs:
+    # a caching wrapper is also driven from a state in which its cache is filled and stale (queries, then changes)
+    primed = setup + [("scandir", "/"), ("scandir", "d"), ("getinfo", "d/g"), ("isdir", "d/e"), ("remove", "f"),
+                      ("writebytes", "d/n", b"N"), ("makedir", "d/e/k", False), ("writebytes", "f2", b"F2")]
+    sys_backs = [(bc, setup) for bc in (backs if thorough else [B.Mem, B.OS, B.SubMem, B.SubOS, B.Wrap, B.MountSub,
+                                                                  B.CachedDirMem, B.ReadOnlyMem])]
+    sys_backs += [(bc, primed) for bc in ([B.CachedDirMem, B.CachedDirOS, B.SubCachedDir] if thorough
+                                          else [B.CachedDirMem])]
+    for bc, su in sys_backs:
         calls = []
         for k in singles:
             for p0 in ("/", "d", "d/e", "f", "d/g", "new"):
@@ -1167,17 +1333,46 @@ def run_c11(report):
             for sx in sp:
                 o2 = list(o)
                 o2[pos] = sx
-                steps = run_histories(bc, [setup + [tuple(o2)]])
-                last = steps[-1]
-                results.append((sx, strip_times(sort_listing(last.outcome)), fsops.canon_tree(last.post)))
+                results.append((sx,) + _run_last(bc, su, o2))
                 total += 1
             groups += 1
             base = results[0]
             nontrivial.add((bc.name, o[0], pos, base[1][:30]))
             for r in results[1:]:
                 if r[1:] != base[1:]:
-                    bad.append((bc.name, setup, o, pos, base, r))
+                    bad.append((bc.name, su, o, pos, base, r))
                     break
+    # long-lived block: equivalent spellings on ONE object, after earlier calls with other spellings and changes
+    ll_calls = ll_groups = 0
+    ll_bad = []
+    ll_per = collections.Counter()
+    for bc in longlived_backends(thorough):
+        for _round in range(30 if thorough else 4):
+            c, g_, d = longlived_round(bc, rnd, thorough)
+            ll_calls += c
+            ll_groups += g_
+            ll_per[bc.name] += g_
+            if d:
+                ll_bad.append(d)
+                break
+    total += ll_calls
+    groups += ll_groups
+    seen_ll = set()
+    for d in ll_bad:
+        sig = "%s.%s one-object" % (d["backend"], d["query"][0])
+        known = report.known_match(sig)
+        if known:
+            report.known_finding(known)
+            continue
+        if sig in PENDING_FINDINGS or sig in seen_ll or len(seen_ll) >= 10:
+            continue
+        seen_ll.add(sig)
+        nontrivial.add((d["backend"], d["query"][0], "one-object", d["a"][1][:30]))
+        report.violation(dict(kind="spellings-disagree-on-one-object", backend=d["backend"], signature=sig,
+                              log=[[w, op_json(o)] for w, o in d["log"]], query=list(d["query"]), path=d["path"],
+                              spellings=[r[0] for r in d["results"]], results=[r[1] for r in d["results"]],
+                              spelling_a=d["a"][0], result_a=d["a"][1], spelling_b=d["b"][0], result_b=d["b"][1],
+                              theorem="Props/C11.v"))
     seen = set()
     for name, h, o, pos, base, r in bad:
         sig = "%s.%s arg%d" % (name, o[0], pos)
@@ -1198,7 +1393,15 @@ def run_c11(report):
              "normal form (leading/trailing/double slash, './', '/.', 'x/../' detours through missing and "
              "existing names) from identical states rebuilt by replaying the history; outcomes and trees must "
              "coincide; non-trivial = distinct (backend, call kind, position, outcome)",
-        groups=groups, disagreements_checked=len(bad), traces_validated_against_impl=total),
+        groups=groups, disagreements_checked=len(bad) + len(ll_bad), traces_validated_against_impl=total,
+        wrapper_backends_replayed=[bc.name for bc in backs if bc in B.WRAPPERS],
+        one_object_rule="on ONE long-lived object per round (cache_directory / read_only wrappers and their "
+                        "compositions, plain backends): queries with one or two spellings, then changes (through "
+                        "the object, sometimes behind it), then each of %d query kinds x key paths with all "
+                        "spellings back to back in one state; the answers must agree with each other"
+                        % len(LONG_QUERIES),
+        one_object_calls=ll_calls, one_object_groups=ll_groups, one_object_groups_per_backend=dict(ll_per),
+        one_object_disagreements=len(ll_bad)),
         ["Linux path resolution behind OSFS is exercised, not modelled"])
 
 
